@@ -559,6 +559,375 @@ Section LoopTerm.
   Qed.
 End LoopTerm.
 
+(* ------------------------------------------------------------------ *)
+(* 6. termination of traversals when the closure adds nothing          *)
+(* ------------------------------------------------------------------ *)
+Section QueueLen.
+  Variable le : nat -> nat -> bool.
+
+  Lemma setn_length : forall l i x, length (setn l i x) = length l.
+  Proof.
+    induction l as [|y r IH]; intros i x; cbn [setn]; [reflexivity|].
+    destruct i; cbn [length]; [reflexivity|]. now rewrite IH.
+  Qed.
+
+  Lemma sift_up_length : forall fuel data start pos x,
+    length (sift_up le fuel data start pos x) = length data.
+  Proof.
+    induction fuel as [|f IH]; intros data start pos x; cbn [sift_up].
+    - apply setn_length.
+    - destruct (Nat.ltb start pos); [|apply setn_length].
+      destruct (le x (getn data (Nat.div2 (pos - 1)))); [apply setn_length|].
+      rewrite IH. apply setn_length.
+  Qed.
+
+  Lemma sift_down_hole_length : forall fuel data hole,
+    length (fst (sift_down_hole le fuel data hole)) = length data.
+  Proof.
+    induction fuel as [|f IH]; intros data hole; cbn [sift_down_hole]; [reflexivity|].
+    destruct (Nat.leb (2 * hole + 1) (length data - 2)).
+    - rewrite IH. apply setn_length.
+    - destruct (Nat.eqb (2 * hole + 1) (length data - 1)); cbn [fst]; [apply setn_length|reflexivity].
+  Qed.
+
+  Lemma heap_push_length data x : length (heap_push le data x) = S (length data).
+  Proof. unfold heap_push. rewrite sift_up_length, app_length. cbn [length]. lia. Qed.
+
+  Lemma heap_pop_length data x q' : heap_pop le data = Some (x, q') -> length data = S (length q').
+  Proof.
+    unfold heap_pop. destruct (rev data) as [|last rrest] eqn:Hr; [discriminate|].
+    assert (Hl : length data = S (length rrest)).
+    { rewrite <- (rev_length data), Hr. reflexivity. }
+    destruct (rev rrest) as [|top rest'] eqn:Hr2.
+    - intros Heq. injection Heq as _ <-. rewrite Hl, <- (rev_length rrest), Hr2. reflexivity.
+    - pose proof (sift_down_hole_length (S (length (setn (top :: rest') 0 last)))
+                    (setn (top :: rest') 0 last) 0) as Hd.
+      destruct (sift_down_hole le (S (length (setn (top :: rest') 0 last)))
+                  (setn (top :: rest') 0 last) 0) as [data2 pos].
+      cbn [fst] in Hd.
+      pose proof (sift_up_length (S (length data2)) data2 0 pos last) as Hsu.
+      revert Hsu. generalize (sift_up le (S (length data2)) data2 0 pos last). intros l Hsu Heq.
+      injection Heq as _ <-.
+      rewrite Hsu, Hd, setn_length, <- Hr2, rev_length. exact Hl.
+  Qed.
+End QueueLen.
+
+Section SumLemmas.
+  Lemma in_iota v : forall n a, In v (iota a n) <-> a <= v < a + n.
+  Proof.
+    induction n as [|n IH]; intros a; cbn [iota In].
+    - split; [intros []|lia].
+    - rewrite IH. lia.
+  Qed.
+
+  Lemma iota_length : forall n a, length (iota a n) = n.
+  Proof. induction n as [|n IH]; intros a; cbn [iota length]; [reflexivity|]. now rewrite IH. Qed.
+
+  Lemma sum_in (f : nat -> nat) v : forall l, In v l ->
+    f v <= fold_right (fun u acc => f u + acc) 0 l.
+  Proof.
+    induction l as [|w r IH]; intros Hin; [contradiction|]. cbn [fold_right].
+    destruct Hin as [->|Hin]; [lia|]. specialize (IH Hin). lia.
+  Qed.
+
+  Lemma sum_le (f g : nat -> nat) : (forall w, f w <= g w) -> forall l,
+    fold_right (fun u acc => f u + acc) 0 l <= fold_right (fun u acc => g u + acc) 0 l.
+  Proof.
+    intros H. induction l as [|w r IH]; cbn [fold_right]; [lia|]. specialize (H w). lia.
+  Qed.
+
+  Lemma sum_S (f : nat -> nat) : forall l,
+    fold_right (fun u acc => S (f u) + acc) 0 l = length l + fold_right (fun u acc => f u + acc) 0 l.
+  Proof. induction l as [|w r IH]; cbn [fold_right length]; [reflexivity|]. rewrite IH. lia. Qed.
+
+  Lemma sum_const1 : forall l : list nat, fold_right (fun u acc => 1 + acc) 0 l = length l.
+  Proof. induction l as [|w r IH]; cbn [fold_right length]; [reflexivity|]. now rewrite IH. Qed.
+End SumLemmas.
+
+Section Term.
+  Variables K V E : Type.
+  Variable keqb : K -> K -> bool.
+  Hypothesis Hk : KeqbSpec keqb.
+  Notation heap := (heap K V E).
+  Notation edge := (edge E).
+  Variable CB : Type.
+  Variable cb : CB -> heap -> edge -> CB * heap * bool.
+  Hypothesis Hcb : forall c h e w,
+    nodes (snd (fst (cb c h e))) = nodes h /\
+    length (outs (snd (fst (cb c h e))) w) <= length (outs h w) /\
+    length (ins (snd (fst (cb c h e))) w) <= length (ins h w).
+  Variable d : dir.
+  Variable h0 : heap.
+  (* bnd: strict bound on the length of each walked list; wt: the weight of an unvisited node *)
+  Variables bnd wt : nat -> nat.
+  Hypothesis Hbw : forall w, bnd w <= wt w.
+  Hypothesis Hw1 : forall w, 1 <= wt w.
+
+  Definition Good (st : sst K V E CB) : Prop :=
+    nodes (s_heap st) = nodes h0 /\ forall w, length (adj_of (s_heap st) d w) < bnd w.
+
+  Definition unvl (l : list nat) (vis : list K) : nat :=
+    fold_right (fun w acc => (if in_vis keqb h0 vis w then 0 else wt w) + acc) 0 l.
+  Definition unv (vis : list K) : nat := unvl (iota 0 (size h0)) vis.
+
+  Lemma keyof_nodes_eq (h : heap) v : nodes h = nodes h0 -> keyof h v = keyof h0 v.
+  Proof. intros H. unfold keyof. now rewrite H. Qed.
+
+  Lemma in_vis_nodes_eq (h : heap) vis v : nodes h = nodes h0 ->
+    in_vis keqb h vis v = in_vis keqb h0 vis v.
+  Proof. intros H. unfold in_vis. now rewrite (@keyof_nodes_eq _ v H). Qed.
+
+  Lemma keyof_some_lt v k : keyof h0 v = Some k -> v < size h0.
+  Proof.
+    unfold keyof, size. intros H. apply nth_error_Some. intros Hn. rewrite Hn in H. discriminate.
+  Qed.
+
+  Lemma in_vis_cons_mono k vis w : in_vis keqb h0 vis w = true -> in_vis keqb h0 (k :: vis) w = true.
+  Proof.
+    unfold in_vis. destruct (keyof h0 w) as [kw|]; [|reflexivity]. cbn [memb].
+    intros H. rewrite H. now destruct (keqb k kw).
+  Qed.
+
+  Lemma in_vis_cons_self k vis v : keyof h0 v = Some k -> in_vis keqb h0 (k :: vis) v = true.
+  Proof.
+    unfold in_vis. intros ->. cbn [memb].
+    assert (Hr : keqb k k = true) by (apply Hk; reflexivity). now rewrite Hr.
+  Qed.
+
+  Lemma unvl_mono k vis : forall l, unvl l (k :: vis) <= unvl l vis.
+  Proof.
+    induction l as [|w r IH]; cbn [unvl fold_right]; [lia|]. fold (unvl r (k :: vis)). fold (unvl r vis).
+    destruct (in_vis keqb h0 vis w) eqn:Hv.
+    - rewrite (in_vis_cons_mono k _ _ Hv). lia.
+    - destruct (in_vis keqb h0 (k :: vis) w); lia.
+  Qed.
+
+  Lemma unvl_mark k vis v : keyof h0 v = Some k -> in_vis keqb h0 vis v = false ->
+    forall l, In v l -> unvl l (k :: vis) + wt v <= unvl l vis.
+  Proof.
+    intros Hkey Hv. induction l as [|w r IH]; intros Hin; [contradiction|].
+    cbn [unvl fold_right]. fold (unvl r (k :: vis)). fold (unvl r vis).
+    destruct Hin as [->|Hin].
+    - rewrite Hv, (in_vis_cons_self vis _ Hkey). pose proof (unvl_mono k vis r). lia.
+    - specialize (IH Hin).
+      destruct (in_vis keqb h0 vis w) eqn:Hw.
+      + rewrite (in_vis_cons_mono k _ _ Hw). lia.
+      + destruct (in_vis keqb h0 (k :: vis) w); lia.
+  Qed.
+
+  Lemma unv_mark k vis v : keyof h0 v = Some k -> in_vis keqb h0 vis v = false ->
+    unv (k :: vis) + wt v <= unv vis.
+  Proof.
+    intros Hkey Hv. apply unvl_mark; try assumption.
+    apply in_iota. pose proof (keyof_some_lt _ Hkey). lia.
+  Qed.
+
+  Lemma unv_le_sum vis : unv vis <= fold_right (fun w acc => wt w + acc) 0 (iota 0 (size h0)).
+  Proof.
+    unfold unv, unvl. apply sum_le. intros w. destruct (in_vis keqb h0 vis w); lia.
+  Qed.
+
+  Lemma adj_len_mono (h h' : heap) w :
+    length (outs h' w) <= length (outs h w) -> length (ins h' w) <= length (ins h w) ->
+    length (adj_of h' d w) <= length (adj_of h d w).
+  Proof. destruct d; cbn [adj_of]; rewrite ?app_length; lia. Qed.
+
+  Lemma call_cb_good st e : Good st ->
+    Good (fst (call_cb cb st e)) /\ s_vis (fst (call_cb cb st e)) = s_vis st.
+  Proof.
+    intros [Hn Hl]. unfold call_cb.
+    pose proof (Hcb (s_cb st) (s_heap st) e) as H.
+    destruct (cb (s_cb st) (s_heap st) e) as [[c1 h1] ok]. cbn [fst snd] in *.
+    split; [|reflexivity]. split; cbn [s_heap].
+    - destruct (H 0) as [H1 _]. now rewrite H1.
+    - intros w. destruct (H w) as (_ & H2 & H3).
+      pose proof (adj_len_mono (s_heap st) h1 w H2 H3). specialize (Hl w). lia.
+  Qed.
+
+  (* the discovery step *)
+  Lemma discover_good st v eo : Good st -> in_vis keqb (s_heap st) (s_vis st) v = false ->
+    Good (discover st v eo) /\ unv (s_vis (discover st v eo)) + wt v <= unv (s_vis st).
+  Proof.
+    intros [Hn Hl] Hv. split; [split; assumption|].
+    rewrite (@in_vis_nodes_eq _ _ _ Hn) in Hv. cbn [discover s_vis]. unfold mark.
+    rewrite (@keyof_nodes_eq _ v Hn).
+    destruct (keyof h0 v) as [k|] eqn:Hkey.
+    - now apply unv_mark.
+    - unfold in_vis in Hv. rewrite Hkey in Hv. discriminate.
+  Qed.
+
+  Lemma descend_term target post : forall fuel st u pos,
+    Good st -> S (bnd u - pos + unv (s_vis st)) <= fuel ->
+    snd (descend keqb cb d target post fuel st u pos) <> OutOfFuel /\
+    Good (fst (descend keqb cb d target post fuel st u pos)) /\
+    unv (s_vis (fst (descend keqb cb d target post fuel st u pos))) <= unv (s_vis st).
+  Proof.
+    induction fuel as [|f IH]; intros st u pos HG Hf; [lia|]. cbn [descend].
+    destruct (edge_at (s_heap st) d u pos) as [e|] eqn:He.
+    2:{ cbn [fst snd]. split; [discriminate|]. split; [exact HG|lia]. }
+    destruct (edge_at_some _ _ _ _ He) as (_ & _ & Hpos).
+    pose proof (proj2 HG u) as Hbu.
+    destruct (@call_cb_good st e HG) as [HG1 Hv1].
+    destruct (call_cb cb st e) as [st1 ok]. cbn [fst] in HG1, Hv1.
+    destruct (ok && negb (in_vis keqb (s_heap st1) (s_vis st1) (edst e))) eqn:Hb.
+    - apply andb_true_iff in Hb. destruct Hb as [_ Hb]. apply negb_true_iff in Hb.
+      set (st2 := discover st1 (edst e) (if post then None else Some e)).
+      destruct (@discover_good st1 (edst e) (if post then None else Some e) HG1 Hb) as [HG2 Hu2].
+      fold st2 in HG2, Hu2. rewrite Hv1 in Hu2.
+      pose proof (Hbw (edst e)) as Hbe.
+      destruct (is_target keqb (s_heap st2) target (edst e)).
+      + cbn [fst snd]. split; [discriminate|]. split; [exact HG2|lia].
+      + destruct (IH st2 (edst e) 0 HG2) as (Hr3 & HG3 & Hu3); [lia|].
+        destruct (descend keqb cb d target post f st2 (edst e) 0) as [st3 r].
+        cbn [fst snd] in Hr3, HG3, Hu3.
+        destruct r; cbn [fst snd].
+        * split; [discriminate|]. split; [exact HG3|lia].
+        * assert (HG3' : Good (if post then push_tree st3 e else st3)) by (destruct post; exact HG3).
+          assert (Hv3' : s_vis (if post then push_tree st3 e else st3) = s_vis st3)
+            by (destruct post; reflexivity).
+          destruct (IH _ u (S pos) HG3') as (Hr4 & HG4 & Hu4); [rewrite Hv3'; lia|].
+          rewrite Hv3' in Hu4. split; [exact Hr4|]. split; [exact HG4|lia].
+        * congruence.
+    - destruct (IH st1 u (S pos) HG1) as (Hr4 & HG4 & Hu4); [rewrite Hv1; lia|].
+      rewrite Hv1 in Hu4. split; [exact Hr4|]. split; [exact HG4|exact Hu4].
+  Qed.
+
+  Section WL.
+    Variable Q : Type.
+    Variable qpush : Q -> nat -> Q.
+    Variable qpop : Q -> option (nat * Q).
+    Variable qlen : Q -> nat.
+    Hypothesis Hpush : forall q x, qlen (qpush q x) = S (qlen q).
+    Hypothesis Hpop : forall q x q', qpop q = Some (x, q') -> qlen q = S (qlen q').
+    Variable target : option K.
+
+    Lemma wl_scan_term : forall fuel st q u pos,
+      Good st -> bnd u - pos < fuel ->
+      snd (wl_scan keqb cb qpush d target fuel st q u pos) <> OutOfFuel /\
+      Good (fst (fst (wl_scan keqb cb qpush d target fuel st q u pos))) /\
+      qlen (snd (fst (wl_scan keqb cb qpush d target fuel st q u pos))) +
+        unv (s_vis (fst (fst (wl_scan keqb cb qpush d target fuel st q u pos))))
+        <= qlen q + unv (s_vis st).
+    Proof.
+      induction fuel as [|f IH]; intros st q u pos HG Hf; [lia|]. cbn [wl_scan].
+      destruct (edge_at (s_heap st) d u pos) as [e|] eqn:He.
+      2:{ cbn [fst snd]. split; [discriminate|]. split; [exact HG|lia]. }
+      destruct (edge_at_some _ _ _ _ He) as (_ & _ & Hpos).
+      pose proof (proj2 HG u) as Hbu.
+      destruct (@call_cb_good st e HG) as [HG1 Hv1].
+      destruct (call_cb cb st e) as [st1 ok]. cbn [fst] in HG1, Hv1.
+      destruct (ok && negb (in_vis keqb (s_heap st1) (s_vis st1) (edst e))) eqn:Hb.
+      - apply andb_true_iff in Hb. destruct Hb as [_ Hb]. apply negb_true_iff in Hb.
+        set (st2 := discover st1 (edst e) (Some e)).
+        destruct (@discover_good st1 (edst e) (Some e) HG1 Hb) as [HG2 Hu2].
+        fold st2 in HG2, Hu2. rewrite Hv1 in Hu2.
+        pose proof (Hw1 (edst e)) as Hwe.
+        destruct (is_target keqb (s_heap st2) target (edst e)).
+        + cbn [fst snd]. split; [discriminate|]. split; [exact HG2|lia].
+        + destruct (IH st2 (qpush q (edst e)) u (S pos) HG2) as (Hr & HG' & Hu'); [lia|].
+          rewrite Hpush in Hu'. split; [exact Hr|]. split; [exact HG'|lia].
+      - destruct (IH st1 q u (S pos) HG1) as (Hr & HG' & Hu'); [lia|].
+        rewrite Hv1 in Hu'. split; [exact Hr|]. split; [exact HG'|exact Hu'].
+    Qed.
+
+    Variable B : nat.
+    Hypothesis HB : forall w, bnd w <= B.
+
+    Lemma wl_loop_term : forall fuel st q,
+      Good st -> qlen q + unv (s_vis st) + B < fuel ->
+      snd (wl_loop keqb cb qpush qpop d target fuel st q) <> OutOfFuel.
+    Proof.
+      induction fuel as [|f IH]; intros st q HG Hf; [lia|]. cbn [wl_loop].
+      destruct (qpop q) as [[u q']|] eqn:Hq; [|cbn [snd]; discriminate].
+      pose proof (@Hpop _ _ _ Hq) as Hql. pose proof (HB u) as HBu.
+      destruct (@wl_scan_term (S f) st q' u 0 HG) as (Hr & HG1 & Hu1); [lia|].
+      destruct (wl_scan keqb cb qpush d target (S f) st q' u 0) as [[st1 q1] r].
+      cbn [fst snd] in Hr, HG1, Hu1.
+      destruct r; cbn [snd]; try discriminate; try congruence.
+      apply IH; [exact HG1|lia].
+    Qed.
+  End WL.
+End Term.
+
+Section TermFinal.
+  Variables K V E : Type.
+  Variable keqb : K -> K -> bool.
+  Hypothesis Hk : KeqbSpec keqb.
+  Notation heap := (heap K V E).
+  Notation edge := (edge E).
+  Variable CB : Type.
+  Variable cb : CB -> heap -> edge -> CB * heap * bool.
+  Hypothesis Hcb : forall c h e w,
+    nodes (snd (fst (cb c h e))) = nodes h /\
+    length (outs (snd (fst (cb c h e))) w) <= length (outs h w) /\
+    length (ins (snd (fst (cb c h e))) w) <= length (ins h w).
+
+  Definition total (h : heap) : nat :=
+    fold_right (fun u acc => length (outs h u) + length (ins h u) + acc) 0 (iota 0 (size h)).
+
+  Lemma fuel_bound_ge h : 2 * S (S (size h) + total h) <= fuel_bound h.
+  Proof.
+    unfold fuel_bound. fold (total h). rewrite (Nat.mul_comm 2).
+    apply Nat.mul_le_mono_l. lia.
+  Qed.
+
+  Lemma adj_len_le_oi (h : heap) d w :
+    length (adj_of h d w) <= length (outs h w) + length (ins h w).
+  Proof. destruct d; cbn [adj_of]; rewrite ?app_length; lia. Qed.
+
+  Lemma adj_len_le_total (h : heap) d w : Wf h -> length (adj_of h d w) <= total h.
+  Proof.
+    intros (Hwf & _ & _). pose proof (adj_len_le_oi h d w) as H.
+    destruct (Nat.lt_ge_cases w (size h)) as [Hlt|Hge].
+    - assert (Hin : In w (iota 0 (size h))) by (apply in_iota; lia).
+      pose proof (sum_in (fun u => length (outs h u) + length (ins h u)) w _ Hin) as Hs.
+      unfold total. cbn beta in Hs. lia.
+    - destruct (Hwf w Hge) as [Ho Hi]. rewrite Ho, Hi in H. cbn [length] in H. lia.
+  Qed.
+
+  Lemma sum_adj_le (h : heap) d :
+    fold_right (fun w acc => S (length (adj_of h d w)) + acc) 0 (iota 0 (size h))
+    <= size h + total h.
+  Proof.
+    rewrite sum_S, iota_length. apply Nat.add_le_mono_l. unfold total.
+    apply (sum_le (fun w => length (adj_of h d w))
+                  (fun w => length (outs h w) + length (ins h w))).
+    intros w. apply adj_len_le_oi.
+  Qed.
+
+  Lemma descend_terminates d target post fuel h c root b : Wf h -> fuel_bound h <= fuel ->
+    snd (descend keqb cb d target post fuel (init_st h c root b) root 0) <> OutOfFuel.
+  Proof.
+    intros Hwf Hfuel.
+    set (w := fun v => S (length (adj_of h d v))).
+    destruct (@descend_term K V E keqb Hk CB cb Hcb d h w w (fun v => le_n _) target post
+                fuel (init_st h c root b) root 0) as (Hr & _ & _).
+    - split; [reflexivity|]. intros v. unfold w. cbn [init_st s_heap]. lia.
+    - pose proof (unv_le_sum keqb h w (s_vis (init_st h c root b))) as Hu.
+      pose proof (sum_adj_le h d) as Hs.
+      pose proof (adj_len_le_total d root Hwf) as Hroot.
+      pose proof (fuel_bound_ge h) as Hfb. subst w. cbn beta in Hu |- *. lia.
+    - exact Hr.
+  Qed.
+
+  Lemma wl_loop_terminates Q (qpush : Q -> nat -> Q) qpop (qlen : Q -> nat) d target fuel h c root b q :
+    (forall q x, qlen (qpush q x) = S (qlen q)) ->
+    (forall q x q', qpop q = Some (x, q') -> qlen q = S (qlen q')) ->
+    qlen q = 1 ->
+    Wf h -> fuel_bound h <= fuel ->
+    snd (wl_loop keqb cb qpush qpop d target fuel (init_st h c root b) q) <> OutOfFuel.
+  Proof.
+    intros Hpush Hpop Hq Hwf Hfuel.
+    apply (@wl_loop_term K V E keqb Hk CB cb Hcb d h (fun _ => S (total h)) (fun _ => 1)
+             (fun _ => le_n _) Q qpush qpop qlen Hpush Hpop target (S (total h)) (fun _ => le_n _)).
+    - split; [reflexivity|]. intros v. cbn [init_st s_heap].
+      pose proof (adj_len_le_total d v Hwf). lia.
+    - pose proof (unv_le_sum keqb h (fun _ => 1) (s_vis (init_st h c root b))) as Hu.
+      rewrite sum_const1, iota_length in Hu.
+      pose proof (fuel_bound_ge h) as Hfb. lia.
+  Qed.
+End TermFinal.
+
 (* ================================================================== *)
 (* FINAL THEOREMS                                                      *)
 (* ================================================================== *)
@@ -725,7 +1094,74 @@ Section Final.
     forall fuel c h pos, length (adj_of h d u) - pos < fuel ->
       snd (edge_loop cb fuel d c h u pos) = true.
   Proof. exact (edge_loop_terminates_ cb). Qed.
+  (* ---- 6. termination of traversals when the closure adds nothing ---- *)
+  Theorem traversal_terminates : KeqbSpec keqb ->
+    (forall c h e w,
+       nodes (snd (fst (cb c h e))) = nodes h /\
+       length (outs (snd (fst (cb c h e))) w) <= length (outs h w) /\
+       length (ins (snd (fst (cb c h e))) w) <= length (ins h w)) ->
+    forall vleb k d fuel h c root target cyc, Wf h -> fuel_bound h <= fuel ->
+      snd (run_search keqb cb vleb k d fuel h c root target cyc) <> OutOfFuel.
+  Proof.
+    intros Hk Hcb vleb k d fuel h c root target cyc Hwf Hfuel. unfold run_search.
+    destruct k.
+    - apply (wl_loop_terminates Hk cb Hcb (@fifo_push) (@fifo_pop) (@length nat));
+        try assumption; try reflexivity.
+      + intros q x. unfold fifo_push. rewrite app_length. cbn [length]. lia.
+      + intros q x q' Hq. destruct q as [|y r]; [discriminate|]. cbn [fifo_pop] in Hq.
+        injection Hq as _ <-. reflexivity.
+    - apply (descend_terminates Hk cb Hcb); assumption.
+    - apply (wl_loop_terminates Hk cb Hcb (heap_push (pq_le vleb h false))
+               (heap_pop (pq_le vleb h false)) (@length nat));
+        try assumption; try reflexivity.
+      + intros q x. apply heap_push_length.
+      + intros q x q'. apply heap_pop_length.
+    - apply (wl_loop_terminates Hk cb Hcb (heap_push (pq_le vleb h true))
+               (heap_pop (pq_le vleb h true)) (@length nat));
+        try assumption; try reflexivity.
+      + intros q x. apply heap_push_length.
+      + intros q x q'. apply heap_pop_length.
+  Qed.
+
+  Theorem order_terminates : KeqbSpec keqb ->
+    (forall c h e w,
+       nodes (snd (fst (cb c h e))) = nodes h /\
+       length (outs (snd (fst (cb c h e))) w) <= length (outs h w) /\
+       length (ins (snd (fst (cb c h e))) w) <= length (ins h w)) ->
+    forall d post fuel h c root, Wf h -> fuel_bound h <= fuel ->
+      snd (order_edges keqb cb d post fuel h c root) <> None.
+  Proof.
+    intros Hk Hcb d post fuel h c root Hwf Hfuel. unfold order_edges.
+    pose proof (@descend_terminates K V E keqb Hk CB cb Hcb d None post fuel h c root true Hwf Hfuel) as H.
+    destruct (descend keqb cb d None post fuel (init_st h c root true) root 0) as [st r].
+    cbn [snd] in H. destruct r; cbn [snd]; try discriminate. congruence.
+  Qed.
 End Final.
+
+(* the harness' scripted callback (no allocations in the script) inside any machine: the heap
+   invariant (mirror / well-formedness / key injectivity) holds in the returned state *)
+Section Scripted.
+  Variables K V E : Type.
+  Variable keqb : K -> K -> bool.
+  Hypothesis Hk : KeqbSpec keqb.
+  Notation heap := (heap K V E).
+
+  Theorem scripted_traversal_inv : forall (directed : bool) is_filter pred script,
+    (forall k i ops x, In (i, ops) script -> In (ONew k x) ops -> False) ->
+    let cb := mk_cb (if directed then step_d keqb else step_u keqb) is_filter pred script in
+    forall h : heap, Inv h ->
+      (forall vleb k d fuel c root target cyc,
+         Inv (s_heap (fst (run_search keqb cb vleb k d fuel h c root target cyc)))) /\
+      (forall d post fuel c root, Inv (s_heap (fst (order_edges keqb cb d post fuel h c root)))) /\
+      (forall fuel d c u pos, Inv (snd (fst (edge_loop cb fuel d c h u pos)))).
+  Proof.
+    intros directed is_filter pred script Hno cb h HInv. subst cb.
+    apply traversal_inv; [|exact HInv].
+    intros c h1 e H1. destruct directed.
+    - exact (proj1 (mk_cb_inv_d Hk is_filter pred script c e H1 Hno)).
+    - exact (proj1 (mk_cb_inv_u Hk is_filter pred script c e H1 Hno)).
+  Qed.
+End Scripted.
 
 Print Assumptions edge_loop_log_erase.
 Print Assumptions run_search_log_erase.
@@ -741,3 +1177,6 @@ Print Assumptions mk_cb_inv_d_new.
 Print Assumptions mk_cb_inv_u_new.
 Print Assumptions traversal_inv.
 Print Assumptions edge_loop_terminates.
+Print Assumptions traversal_terminates.
+Print Assumptions order_terminates.
+Print Assumptions scripted_traversal_inv.
